@@ -121,3 +121,17 @@ CHECKS.update({
                     'supplied values, sink value = sum of values at receipt, maintainer value drops by started-order costs, batch = sum of '
                     'parts, net value = sum over registered assets.'},
 })
+
+CHECKS.update({
+    'C08': {'harnesses': ['harness.line_jobs'],
+            'text': _LINE + 'models with fan-out, complementary gates, a re-entrant shared group, two paths through a two-device group, a nested '
+                    'group and blocked inputs toggled at symbolic instants: after every event each part\'s routing history must be a walk of '
+                    'the route graph derived from the model specification (group exit through the innermost entered path), equal the devices '
+                    'that actually received it, satisfy every gate it lists, never enter a blocked input, sinks collect in arrival order and '
+                    'the longest-idle parallel device receives the part.'},
+    'C17': {'harnesses': ['harness.line_jobs'],
+            'text': _LINE + 'Source (single parts and batches of symbolic size 0-3) -> PartBatcher(n or single) -> Buffer/handler -> Sink with '
+                    'downstream blocking: emitted batches have exactly n parts, the concatenated leaf sequence leaving is a prefix of the one '
+                    'arriving at every instant, the batcher content is the not-yet-emitted suffix in order, no input is accepted while unpacking, '
+                    'buffer level and census count leaves, routing-history updates reach contained parts.'},
+})
